@@ -2,6 +2,7 @@
 //! generated workloads under observation.  One binary, several sub-commands; every sub-command reads
 //! a JSONL case file and writes a JSONL result file, so the Python side owns generation and oracles.
 
+mod host;
 mod hostfns;
 mod intr;
 mod parse;
@@ -20,6 +21,7 @@ fn main() {
         "parse" => parse::main(rest),
         "globals" => run::globals_main(rest),
         "intr" => intr::main(rest),
+        "host" => host::main(rest),
         other => {
             eprintln!("unknown sub-command {other}");
             2
